@@ -42,7 +42,9 @@ class ZA:
         self.R_once = f('ZMQReceiver.recv.recv_once')
         self.R_pm = f('ZMQReceiver.recv.recv_once.process_msg')
         self.R_req = f('ZMQReceiver.recv.request')
-        self.consts = q.module_consts(self.mod)
+        self.consts = q.module_consts(self.mod, env_defaults=False)   # environment-derived switches stay symbolic
+        self.consts_env = q.module_consts(self.mod)
+        self._pcache = {}
         self.client_fields = q.named_tuple_fields(self.Client)
         # roles ---------------------------------------------------------------------------------------------
         # receiver: the local that holds env['mid'] (env = decoded json envelope)
@@ -77,8 +79,25 @@ class ZA:
                     return n.targets[0].id
         raise Unresolved(f"{Z}:{qualname(fn)}: no local assigned from {envname}[{key!r}]")
 
-    def ev(self, **kw) -> Evaluator:
-        return Evaluator(self.repo, self.mod, consts=self.consts, **kw)
+    def ev(self, region_fn=None, **kw) -> Evaluator:
+        e = Evaluator(self.repo, self.mod, consts=self.consts, **kw)
+        e.seed = q.outer_aliases(region_fn) if region_fn is not None else {}
+        return e
+
+    def start(self, region_fn=None) -> Path:
+        p = Path()
+        if region_fn is not None:
+            p.env.update(q.outer_aliases(region_fn))
+        return p
+
+    def paths(self, which: str):
+        """Cached path sets of the big closures."""
+        if which not in self._pcache:
+            fn = {'maybe': self.S_maybe, 'poll': self.S_poll, 'pm': self.R_pm, 'rs_init': self.RS_init}[which]
+            ev = self.ev()
+            ev.scope_node = fn
+            self._pcache[which] = ev.run(fn.body, self.start(fn))
+        return self._pcache[which]
 
     def client_field_of_term(self, term: str):
         """Map '__elem__(...)[1][3]' style terms of the unpacked Client tuple to the NamedTuple field name."""
